@@ -11,7 +11,9 @@ CONSTANTS
   MaxFields = 0
   MaxCont = 0
   MaxTotal = 0
+  ShapeMode = 0
   ArmorHdrs = {1}
+  SigBools = {TRUE, FALSE}
   Emit = TRUE
 SPECIFICATION LSpec
 VIEW LView
